@@ -2,6 +2,7 @@ import Marwood.Lemmas.TCall
 import Marwood.Lemmas.CompileTail
 import Marwood.Lemmas.StackWFToy
 import Marwood.Lemmas.ConcreteLawsBpLive
+import Marwood.Lemmas.StackDiscOfWFS
 /-!
 # C04 — calls in tail position run in constant stack space (instruction level)
 
@@ -547,6 +548,91 @@ theorem tail_loop_sp_concrete (ext : ExtOps) (ecl : ExtCodeLaws ext) {D : FDesc}
     (hw : WFS (concreteLaws ext ecl) s (D :: R)) (hh : AtHead s D.base) :
     ∃ arity, s'.stack.cellAt (s'.bp + 1) = .argc arity ∧ s'.stack.sp = D.base + arity + 3 :=
   tail_loop_sp (concreteLaws ext ecl) hl hw hh
+
+/-! ### on the REAL machine: no guard, no per-step `CalleeOk`
+
+`Lemmas/StackDiscOfWFS.lean`: on a state satisfying the heap-simulation invariant `GoodI`, a successful instruction
+of `concreteOps ext` is the same instruction of the guarded machine `vops ext` the generic WF-stack theorems run on
+(`step_vops`), and `VmOk = GoodI ∧ WFS` is preserved (`vmOk_step`). So a loop of tail calls **of the real
+machine** is a loop of tail calls of `vops ext`, and T04.5 applies. Hypotheses: the laws of the unmodelled parts,
+`GoodI` and WF-stack (value-typed verifier) of the FIRST state, the size bound and the callee guard at call sites
+along the run (`CalleeOkAlong`, oracle `callee-ok` of the `bytecode-verifier` stream). -/
+
+open Marwood.Lemmas.Good Marwood.Lemmas.Sim in
+/-- one successful instruction of the real machine, seen on the guarded machine, with the invariants -/
+theorem step_to_vops {ext : ExtOps} {ecl : ExtCodeLawsV ext} (force : Bool) (el : ExtLaws ext) (eg : ExtGood ext)
+    {s0 s s' : St CHeap} (sb : SizeBounded (machine ext force) s0) (ca : CalleeOkAlong (machine ext force) s0)
+    (hr : Reaches (machine ext force) s0 s) (h : VmOk ext ecl s)
+    (hs : step (concreteOps ext) s = .ok (s', false)) :
+    step (vops ext) s = .ok (s', false) ∧ Reaches (machine ext force) s0 s' ∧ VmOk ext ecl s' := by
+  have hr' : Reaches (machine ext force) s0 s' := by
+    refine .next hr ?_
+    show vmStep (concreteOps ext) s = .next s'
+    unfold vmStep; rw [hs]
+  exact ⟨step_vops eg h.1 (ca s hr) hs (sb s' hr'), hr', vmOk_step el eg h (ca s hr) (sb s hr) hs (sb s' hr')⟩
+
+open Marwood.Lemmas.Good Marwood.Lemmas.Sim in
+theorem trace_to_vops {ext : ExtOps} {ecl : ExtCodeLawsV ext} (force : Bool) (el : ExtLaws ext) (eg : ExtGood ext)
+    {s0 : St CHeap} (sb : SizeBounded (machine ext force) s0) (ca : CalleeOkAlong (machine ext force) s0)
+    {base : Nat} {s t : St CHeap} (htr : Trace (concreteOps ext) base s t) :
+    Reaches (machine ext force) s0 s → VmOk ext ecl s →
+      Trace (vops ext) base s t ∧ Reaches (machine ext force) s0 t ∧ VmOk ext ecl t := by
+  induction htr with
+  | nil s => intro hr h; exact ⟨.nil s, hr, h⟩
+  | @cons s s1 t hnc hst hsp _ ih =>
+    intro hr h
+    obtain ⟨hv, hr1, h1⟩ := step_to_vops force el eg sb ca hr h hst
+    obtain ⟨t1, t2, t3⟩ := ih hr1 h1
+    refine ⟨.cons ?_ hv hsp t1, t2, t3⟩
+    intro c hc
+    exact hnc c (gcallee_cont hc)
+
+open Marwood.Lemmas.Good Marwood.Lemmas.Sim in
+theorem tailLoop_to_vops {ext : ExtOps} {ecl : ExtCodeLawsV ext} (force : Bool) (el : ExtLaws ext) (eg : ExtGood ext)
+    {s0 : St CHeap} (sb : SizeBounded (machine ext force) s0) (ca : CalleeOkAlong (machine ext force) s0)
+    {base n : Nat} {s s' : St CHeap} (hl : TailLoop (concreteOps ext) base n s s') :
+    Reaches (machine ext force) s0 s → VmOk ext ecl s → TailLoop (vops ext) base n s s' := by
+  induction hl with
+  | zero s => intro _ _; exact .zero s
+  | @succ n s t t1 u s1 s2 lam env htr hro hb hc hst hpro _ ih =>
+    intro hr h
+    obtain ⟨tr, hrt, ht⟩ := trace_to_vops force el eg sb ca htr hr h
+    obtain ⟨hv, hru, hu⟩ := step_to_vops force el eg sb ca hrt ht hst
+    have hsite : CalleeSite t := .inr (.inl (readOpcode_inv hro).2)
+    have hcv : (vops ext).callee t.heap t.acc = .closure lam env := by
+      show gcallee t.heap t.acc = _
+      rw [ca t hrt hsite]; exact hc
+    cases hpro with
+    | @enter u1 _ he hse =>
+      obtain ⟨hv2, hr2, h2⟩ := step_to_vops force el eg sb ca hru hu hse
+      exact .succ tr hro hb hcv hv (.enter he hv2) (ih hr2 h2)
+    | @vararg u1 v v1 _ hva hsv he hse =>
+      obtain ⟨hv2, hr2, h2⟩ := step_to_vops force el eg sb ca hru hu hsv
+      obtain ⟨hv3, hr3, h3⟩ := step_to_vops force el eg sb ca hr2 h2 hse
+      exact .succ tr hro hb hcv hv (.vararg hva hv2 he hv3) (ih hr3 h3)
+
+open Marwood.Lemmas.Good Marwood.Lemmas.Sim in
+/-- **T04.5 on the real machine** (`run_one` over `concreteOps ext`, no guard): loops of tail calls with arbitrary
+    verified bodies run in the same frame slot; `sp` at the loop head depends on the frame's base and the head's
+    arity only. -/
+theorem tail_loop_sp_machine (ext : ExtOps) (force : Bool) (el : ExtLaws ext) (eg : ExtGood ext)
+    (ecl : ExtCodeLawsV ext) {D : FDesc} {R : List FDesc} {n : Nat} {s s' : St CHeap}
+    (hl : TailLoop (concreteOps ext) D.base n s s') (g : GoodI s)
+    (hw : WFS (concreteLawsV ext ecl) s (D :: R)) (hh : AtHead s D.base)
+    (sb : SizeBounded (machine ext force) s) (ca : CalleeOkAlong (machine ext force) s) :
+    ∃ arity, s'.stack.cellAt (s'.bp + 1) = .argc arity ∧ s'.stack.sp = D.base + arity + 3 :=
+  tail_loop_sp (concreteLawsV ext ecl)
+    (tailLoop_to_vops force el eg sb ca hl (.refl s) ⟨g, .inl ⟨_, hw⟩⟩) hw hh
+
+/-- one instruction of the real machine preserves WF-stack over the value-typed verifier (and `GoodI`) -/
+theorem step_preserves_machine (ext : ExtOps) (el : Marwood.Lemmas.Sim.ExtLaws ext)
+    (eg : Marwood.Lemmas.Good.ExtGood ext) (ecl : ExtCodeLawsV ext)
+    {s s' : St CHeap} {K : List FDesc} (g : Marwood.Lemmas.Good.GoodI s) (hw : WFS (concreteLawsV ext ecl) s K)
+    (hc : Marwood.Lemmas.Good.CalleeSite s → CalleeOk s) (sm : Marwood.Lemmas.Good.Small s.heap)
+    (hs : step (concreteOps ext) s = .ok (s', false)) (sm' : Marwood.Lemmas.Good.Small s'.heap) :
+    Marwood.Lemmas.Good.GoodI s' ∧ ∃ K', WFS (concreteLawsV ext ecl) s' K' ∧ KStep (vops ext) s s' K K' :=
+  ⟨(Marwood.Lemmas.Good.vmOk_step el eg ⟨g, .inl ⟨K, hw⟩⟩ hc sm hs sm').1,
+    step_preserves hw (Marwood.Lemmas.Good.step_vops eg g hc hs sm')⟩
 
 end Concrete
 
